@@ -34,6 +34,13 @@ Oracle of the property statement itself (always run; independent of the Lean mod
   * gated whole extractions: thread T1 is held at the entry / exit of every function called under a declared cache
     (`_expand_key`, the TrueType table readers; from the current source) while T2 extracts the same and a sibling
     document;
+  * interpreter-global SETTINGS and REGISTRIES (c15_globals.py): the snapshot contains every setting with a setter (recursion limit,
+    locale, decimal contexts, warnings filters, socket / csv defaults, ...) and the registries a module can extend at import time
+    or first use (codec registry probed with ~250 non-standard charset labels, email.charset, mimetypes, copyreg, atexit, ...);
+    EVERY function of the package that writes such a setting (AST inventory + callers recorded at run time) is put under the
+    generic line-granularity scheduler with two real threads extracting real documents, incl. documents nested 1500 levels deep;
+    order histories 'document before / after every lazily imported extractor module' run in pristine interpreters (a seeded
+    permutation of the router's modules and its reverse, probe documents that declare unknown charset labels);
   * search(): interleavings of real sections explored directly (phase granularity exhaustively for
     k <= 3, event granularity depth-first for k = 2, random beyond), font-cache and AES history checks.
 """
@@ -58,6 +65,9 @@ import types
 
 from run import Broken, Violation, Infra
 
+sys.path.insert(0, os.path.dirname(os.path.abspath(__file__)))
+import c15_globals as G  # noqa: E402  (settings / registries / generic section scheduler / import histories)
+
 GEN = ["GlobalWrites"]
 RULE = ("patch section: every edge of the model's coarse-turn state graph for k<=3 threads (+random k=4,5), bodies raise at random; "
         "caches: random key / (font, glyph ids) histories with repeats, evictions and failing keys, all ordered pairs of a family of "
@@ -65,7 +75,11 @@ RULE = ("patch section: every edge of the model's coarse-turn state graph for k<
         "threads x 14 key configurations (+random k=3), line-granularity preemption-bounded schedules; gated whole extractions at "
         "every function under a declared cache; AES: all orders of "
         "generated plain/RC4/AES-128/AES-256/locked PDFs from a pristine provider; sequences / threads: random orders of "
-        "fixtures + generated + damaged documents. distinct = distinct (schedule | history | sequence); non-trivial = "
+        "fixtures + generated + damaged documents + 6 documents nested 1500 levels deep + documents declaring unknown charset labels; "
+        "setting sections: for every function that writes an interpreter-global setting all 'A i steps, B j steps' line schedules over "
+        "(longest-running doc x deep docs / itself / a second / a failing doc); import histories: a seeded permutation of the router's "
+        "extractor modules and its reverse in pristine interpreters, every loaded probe document re-extracted after every step. "
+        "distinct = distinct (schedule | history | sequence); non-trivial = "
         "at least two sections overlap | a repeated key | a sequence of >= 2 documents")
 ASSUMPTIONS = [
     "threads are preempted only between the observable events of the section (attribute read/write, lock acquire/release); "
@@ -82,10 +96,16 @@ ASSUMPTIONS = [
     "pypdf: /V 5 needs AES in PdfReader(), /V 4 only when strings/streams are decrypted (tied by the AES correspondence)",
     "the AES provider patch is one-way by design of the library (open known finding aes.provider-patch-not-restored)",
     "one patched cell: pypdf < 6.6 (pypdf._page.build_char_map); checked by the theorem inventory_side_conditions",
+    "setting sections are preempted at source-line boundaries, one preemption per thread; writers are found syntactically (aliases of "
+    "imports resolved) or by wrapped setters at run time — a setter stored in a variable before the recorder is installed escapes both, "
+    "not the snapshots",
+    "registry changes made by modules OUTSIDE the package at import / first use (openpyxl: XML namespace prefixes, atexit) are judged "
+    "through the probe documents' results only; codec / alias / mimetypes entries are seen through the probed labels and map digests",
 ]
 TRUSTED = ["controlled schedulers (Controlled for sections, CallCtl for calls) + attribute/lock/gate instrumentation in harness/props/c15.py",
            "the font / PDF writers of the harness (assemble_ttf, collision_family, make_font_pdf, make_text_pdf)",
            "tools/gen/globalwrites.py (AST inventory of global writes)",
+           "harness/props/c15_globals.py (settings / registries snapshot, SectionCtl scheduler, deep / charset document writers, import-history child)",
            "CPython threading.Lock, contextlib.contextmanager, try/finally, generator close semantics"]
 
 REPO = os.environ.get("S2T_REPO", "/repo")
@@ -1968,6 +1988,324 @@ def oracle_gated_docs(ctx, st, budget_s):
     return []
 
 
+# =============================================================================================
+#  interpreter-global settings and registries (generalisation of the patch section; see c15_globals.py)
+# =============================================================================================
+_HEAD_LABELS = ["iso-8859-8-i", "cp-1252", "windows-874", "x-sjis", "win-1251", "x-mac-roman"]
+
+
+def probe_labels(ctx):
+    """charset labels the generated documents declare: a fixed head of labels mail clients / browsers emit + a seeded sample of
+    the systematic respellings (own generator: does not disturb the corpus sampling)"""
+    import random
+    rest = [lb for lb in G.codec_labels() if lb not in _HEAD_LABELS]
+    random.Random(ctx.seed * 7919 + 15).shuffle(rest)
+    return _HEAD_LABELS + rest
+
+
+_SNAP_LABELS = []
+
+
+def _snapshot_labels():
+    if not _SNAP_LABELS:
+        _SNAP_LABELS.extend(G.codec_labels())
+    return _SNAP_LABELS
+
+
+def _module_of(path):
+    from sharepoint2text.parsing import router
+    low = path.lower()
+    for cx, ft in router._COMPOUND_EXTENSIONS.items():
+        if low.endswith(cx):
+            return router._EXTRACTOR_REGISTRY[ft][0]
+    ext = low.rsplit(".", 1)[-1]
+    ext = router._EXTENSION_ALIASES.get(ext, ext)
+    return router._EXTRACTOR_REGISTRY.get(ext, (None, None))[0]
+
+
+def _chain_inputs(ctx, wd, labels=None, seed=None):
+    """(orders, docs, labels, firsts): a seeded permutation of the router's lazily imported extractor modules and its reverse
+    (every pair 'module M, document of another module' is met in the order document-before-M by one of them); probe documents
+    = generated charset documents + one small fixture per file type; `firsts` = what is extracted right after the import of a
+    type (a garbage file = failing first extraction, and the fixture)"""
+    import random
+    from sharepoint2text.parsing import router
+    rng = random.Random((ctx.seed if seed is None else seed) * 104729 + 15)
+    mods = []
+    for ft, (m, _f) in router._EXTRACTOR_REGISTRY.items():
+        if m not in [x[0] for x in mods]:
+            mods.append([m, ft])
+    order = list(mods)
+    rng.shuffle(order)
+    labels = list(labels) if labels is not None else probe_labels(ctx)[: ctx.n(14, 60)]
+    docs = [[n, p, _module_of(p)] for n, p in G.charset_docs(os.path.join(wd.root, "chain-docs"), labels)]
+    firsts = {}
+    fx = {}
+    for root, ds, fs in os.walk(RES):
+        ds.sort()
+        for f in sorted(fs):
+            p = os.path.join(root, f)
+            ext = f.rsplit(".", 1)[-1].lower()
+            ext = router._EXTENSION_ALIASES.get(ext, ext)
+            if ext in router._EXTRACTOR_REGISTRY and 0 < os.path.getsize(p) <= 300_000 and len(fx.get(ext, [])) < 2:
+                fx.setdefault(ext, []).append(p)
+    os.makedirs(os.path.join(wd.root, "chain-docs"), exist_ok=True)
+    for ft in router._EXTRACTOR_REGISTRY:
+        g = os.path.join(wd.root, "chain-docs", "garbage." + ft)
+        with open(g, "wb") as fh:
+            fh.write(b"\x00\x01 not a document \xff\xfe" * 3)
+        firsts[ft] = [g] + fx.get(ft, [])[:2]
+    for ext, ps in sorted(fx.items()):
+        docs.append(["fixture/" + os.path.relpath(ps[0], RES), ps[0], router._EXTRACTOR_REGISTRY[ext][0]])
+    return [order, order[::-1]], docs, G.codec_labels(), firsts
+
+
+# first-use registrations that third-party packages make lazily and that no result can depend on
+_FIRST_USE_NEUTRAL = ("atexit.ncallbacks",)
+
+
+def judge_chain(res):
+    """[(key, what, step index)] for one chain result"""
+    out = []
+    if "error" in res:
+        return [("harness", "import-history child failed: " + str(res["error"])[:300], -1)]
+    for i, st_ in enumerate(res["steps"]):
+        m = st_["module"]
+        if st_["result_diffs"]:
+            d = st_["result_diffs"][0]
+            out.append(("imports.result-depends-on-loaded-extractors",
+                        f"in a fresh process, {d['doc']} extracted once {d['first_after'].rsplit('.', 1)[-1]} was loaded has digest {d['first']}; "
+                        f"extracted again after the first use of {m.rsplit('.', 1)[-1]} (lazily imported by the router for '.{st_['ft']}') it has {d['now']}", i))
+        if st_["lib_diff"]:
+            k, v = sorted(st_["lib_diff"].items())[0]
+            out.append(("imports.registry-extended-at-import",
+                        f"importing {m} (the router does it on the first '.{st_['ft']}') changes interpreter-wide state that is never put back: "
+                        + "; ".join(f"{k}: {v[0]} -> {v[1]}" for k, v in sorted(st_["lib_diff"].items())[:4]), i))
+        fu = {k: v for k, v in list(st_.get("first_use_diff", {}).items()) + list(st_.get("probe_diff", {}).items()) if k not in _FIRST_USE_NEUTRAL}
+        if fu:
+            out.append(("imports.registry-extended-at-first-use",
+                        f"the first extraction(s) after loading {m} change interpreter-wide state that is never put back: "
+                        + "; ".join(f"{k}: {v[0]} -> {v[1]}" for k, v in sorted(fu.items())[:4]), i))
+    return out
+
+
+def oracle_import_histories(ctx, st):
+    """always-on: order histories 'document before / after every lazily imported extractor module' in pristine interpreters"""
+    wd = st["wd"]
+    if "chains" in st:      # started in the background when the oracles began
+        orders, procs = st.pop("chains")
+        results = G.collect_import_chains(procs)
+    else:
+        orders, docs, labels, firsts = _chain_inputs(ctx, wd)
+        results = G.run_import_chains(REPO, orders, docs, labels, firsts)
+    out = []
+    for order, res in zip(orders, results):
+        ctx.count("import-history/chains")
+        if "error" in res:
+            raise Infra("import-history child failed: " + str(res["error"])[-400:])
+        ctx.coverage["import_history_docs_probed"] = res["docs_probed"]
+        ctx.coverage["import_history_unknown_labels"] = res["labels_unknown"]
+        ctx.coverage["import_history_modules"] = len(order)
+        third = sorted({k for s_ in res["steps"] for k in s_["outside_diff"]} | {k for s_ in res["steps"] for k in list(s_.get("first_use_diff", {})) + list(s_.get("probe_diff", {})) if k in _FIRST_USE_NEUTRAL})
+        ctx.coverage["registries_extended_by_imports_outside_the_package"] = third
+        for s_ in res["steps"]:
+            ctx.case(("import-history", tuple(m for m, _ in order[: res["steps"].index(s_) + 1])), nontrivial=True)
+        for key, what, i in judge_chain(res):
+            if not any(v.key == key for v in out):
+                out.append(Violation(key, what, {"kind": "import-history", "order": order[: i + 1], "seed": ctx.seed,
+                                                 "labels": probe_labels(ctx)[: ctx.n(14, 60)]}))
+    return out
+
+
+def replay_import_history(ctx, st, rp):
+    import types as _t
+    fake = _t.SimpleNamespace(seed=rp.get("seed", 0), n=ctx.n, thorough=ctx.thorough)
+    orders, docs, labels, firsts = _chain_inputs(fake, st["wd"], labels=rp.get("labels"))
+    res = G.run_import_chains(REPO, [rp["order"]], docs, labels, firsts)[0]
+    if "error" in res:
+        raise Infra("import-history child failed: " + str(res["error"])[-400:])
+    bad = judge_chain(res)
+    if bad:
+        return False, bad[0][1]
+    return True, (f"fresh process, imports {[m.rsplit('.', 1)[-1] for m, _ in rp['order']]}: registries unchanged by the package's modules, "
+                  f"{res['docs_probed']} probe documents keep their first result")
+
+
+class SetterRecorder:
+    """while active, calls of well-known setters of interpreter-global settings made FROM A FRAME OF THE PACKAGE are recorded
+    (file, first line of the calling function): the dynamic complement of the AST inventory `G.setting_writers` (aliases such
+    as getattr(sys, 'setrecursionlimit') do not escape it)"""
+    TARGETS = [("sys", "setrecursionlimit"), ("sys", "setswitchinterval"), ("locale", "setlocale"), ("decimal", "setcontext"),
+               ("socket", "setdefaulttimeout"), ("warnings", "filterwarnings"), ("warnings", "simplefilter"), ("warnings", "resetwarnings"),
+               ("csv", "field_size_limit"), ("os", "chdir"), ("os", "umask"), ("codecs", "register"), ("codecs", "register_error"),
+               ("mimetypes", "add_type"), ("copyreg", "pickle"), ("atexit", "register"), ("gc", "disable"), ("gc", "enable")]
+
+    def __init__(self):
+        self.callers = {}
+        self._saved = []
+        self.root = os.path.join(os.path.realpath(REPO), "sharepoint2text") + os.sep
+
+    def __enter__(self):
+        for mn, fn in self.TARGETS:
+            mod = importlib.import_module(mn)
+            orig = getattr(mod, fn, None)
+            if orig is None:
+                continue
+
+            def mk(orig, name):
+                def wrapper(*a, **kw):
+                    f = sys._getframe(1)
+                    for _ in range(3):      # the caller, or the generator-based context manager it belongs to
+                        if f is None:
+                            break
+                        cf = os.path.realpath(f.f_code.co_filename)
+                        if cf.startswith(self.root) and os.sep + "tests" + os.sep not in cf:
+                            if not (name == "csv.field_size_limit" and not a):      # a call without argument only reads
+                                self.callers.setdefault((cf, f.f_code.co_name, f.f_code.co_firstlineno), set()).add(name)
+                            break
+                        f = f.f_back
+                    return orig(*a, **kw)
+                wrapper.__wrapped__ = orig
+                return wrapper
+            self._saved.append((mod, fn, orig))
+            setattr(mod, fn, mk(orig, mn + "." + fn))
+        return self
+
+    def __exit__(self, *a):
+        for mod, fn, orig in self._saved:
+            setattr(mod, fn, orig)
+        return False
+
+
+def _setting_sections(st):
+    """[(realpath, first line, last line, name, cells)]: functions of the package that write interpreter-global settings:
+    AST inventory of the current source + callers recorded at run time"""
+    secs = {}
+    for w in G.setting_writers(REPO):
+        if w["func"] != "<module>":
+            secs[(os.path.realpath(w["file"]), w["lo"])] = (os.path.realpath(w["file"]), w["lo"], w["hi"], w["func"], w["cells"])
+    for (cf, name, first), cells in st.get("setter_callers", {}).items():
+        if name == "<module>":
+            continue
+        if not any(f == cf and lo <= first <= hi for (f, lo, hi, _n, _c) in secs.values()):
+            secs[(cf, first)] = (cf, first, first, name, sorted(cells))
+    return sorted(secs.values())
+
+
+def _job(path):
+    return lambda: extract_digest(path)
+
+
+def oracle_setting_sections(ctx, st, budget_s):
+    """always-on, model-free: for EVERY function of the package that sets an interpreter-global setting (none in the unchanged
+    library), two real threads extract real documents that reach it — a small one and documents nested deeper than the default
+    recursion limit — paused before every source line of the function: all schedules 'A runs i steps, B runs j steps, A drains,
+    B drains'; results must equal the isolated baseline and the settings must be back afterwards."""
+    t0 = time.time()
+    secs = _setting_sections(st)
+    ctx.coverage["setting_writer_functions"] = [f"{os.path.basename(f)}:{n} {c}" for f, _lo, _hi, n, c in secs]
+    # the instrument itself, on a reference section of the harness (unsynchronised save / set / restore of the switch interval)
+    ok_ref, _w, _r = G.check_setting_interleaving([_reference_job, _reference_job], ["ref", "ref"], [_reference_span()], [0, 0, 0, 1, 1, 1])
+    ctx.coverage["setting_scheduler_detects_reference_overlap"] = not ok_ref
+    if ok_ref:
+        raise Infra("the generic section scheduler did not expose the unsynchronised reference section")
+    if not secs:
+        return []
+    by_name, baseline = dict(st["docs"]), st["baseline"]
+    spans = [(f, lo, hi) for f, lo, hi, _n, _c in secs]
+    files = {f for f, *_ in secs}
+    names = [n for n, _ in st["docs"]]
+    pref = [n for n in names if n.startswith("deep/")] + [n for n in names if n.startswith("charset/")]
+    def in_writer_module(n):
+        m = sys.modules.get(_module_of(by_name[n]) or "")
+        return m is not None and os.path.realpath(getattr(m, "__file__", "") or "") in files
+    same_mod = [n for n in names if n not in pref and in_writer_module(n)]
+    rest = [n for n in names if n not in pref and n not in same_mod and os.path.getsize(by_name[n]) < 60_000]
+    reach = []
+    for n in pref + same_mod + rest:
+        if time.time() - t0 > budget_s / 3:
+            break
+        if G.reached_sections(_job(by_name[n]), [(f, lo, hi) for f, lo, hi in spans]):
+            reach.append(n)
+        if len(reach) >= 12:
+            break
+    ctx.coverage["setting_sections_reached_by"] = reach[:12]
+    if not reach:
+        ctx.notes.append("functions that write interpreter-global settings exist but no document of the corpus reaches them")
+        return []
+    # A = the document that spends the most steps inside the sections (a failing one stops early); B = documents nested deeper than
+    # the default recursion limit, A itself, a second document, and a failing document (sections left by an exception)
+    nsteps = {n: G.section_steps(_job(by_name[n]), spans) for n in reach}
+    ranked = sorted(reach, key=lambda n: (-nsteps[n], baseline[n].startswith("ERR"), n))
+    deep = [n for n in ranked if n.startswith("deep/")]
+    top = ranked[0]
+    second = [n for n in ranked if n != top and not n.startswith("deep/")][:1]
+    failing = [n for n in ranked if baseline[n].startswith("ERR") and n != top and not n.startswith("deep/")][:1]
+    pairs = [(top, b) for b in deep[:2] if b != top] + [(top, top)] + [(top, b) for b in second] + [(b, top) for b in failing]
+    ctx.coverage["setting_section_pairs"] = pairs
+    for a, b in pairs:
+        na, nb = nsteps[a], nsteps[b]
+        # the two threads run the same code: the overlaps 'both equally far into the section' first
+        for i, j in sorted(((i, j) for i in range(1, min(na, 40) + 1) for j in range(1, min(nb, 40) + 1)),
+                           key=lambda ij: (max(ij), abs(ij[0] - ij[1]), ij)):
+            if True:
+                if time.time() - t0 > budget_s:
+                    ctx.notes.append("setting-section exploration stopped by its time budget")
+                    return []
+                sched = [0] * i + [1] * j
+                ok, what, _res = G.check_setting_interleaving([_job(by_name[a]), _job(by_name[b])], [baseline[a], baseline[b]], spans, sched)
+                ctx.case(("setting-section", a, b, tuple(sched)), nontrivial=True)
+                ctx.count("setting-section/k=2")
+                if not ok:
+                    fn = ", ".join(f"{os.path.basename(f)}:{n}" for f, _lo, _hi, n, _c in secs[:3])
+                    return [Violation("settings.section-not-isolated",
+                                      f"two threads extracting {a} (A) and {b} (B), paused before the lines of {fn}: A runs {i} steps, B runs {j} steps, "
+                                      f"A finishes, B finishes: {what}",
+                                      {"kind": "setting-section", "a": a, "b": b, "schedule": sched})]
+    return []
+
+
+def _reference_section():
+    prev = sys.getswitchinterval()
+    sys.setswitchinterval(0.0123)
+    try:
+        time.sleep(0)
+    finally:
+        sys.setswitchinterval(prev)
+
+
+def _reference_job():
+    _reference_section()
+    return "ref"
+
+
+def _reference_span():
+    c = _reference_section.__code__
+    return (os.path.realpath(c.co_filename), c.co_firstlineno, c.co_firstlineno + 6)
+
+
+def replay_setting_section(ctx, st, rp):
+    wd = st["wd"]
+    docs = dict(corpus(ctx, wd, st["pdfs"]))
+    a, b = rp["a"], rp["b"]
+    missing = [n for n in (a, b) if n not in docs]
+    if missing:
+        return True, f"documents {missing} are generated per seed; re-run with the recorded VERIF_SEED"
+    _preimport()
+    base = {n: isolated_digest(docs[n]) for n in {a, b}}
+    with SetterRecorder() as rec:
+        for n in (a, b):
+            extract_digest(docs[n])
+    st["setter_callers"] = rec.callers
+    secs = _setting_sections(st)
+    if not secs:
+        return True, "no function of the package writes an interpreter-global setting: nothing to interleave"
+    spans = [(f, lo, hi) for f, lo, hi, _n, _c in secs]
+    ok, what, res = G.check_setting_interleaving([_job(docs[a]), _job(docs[b])], [base[a], base[b]], spans, rp["schedule"])
+    return ok, (what or f"both results equal the isolated ones, settings restored (steps taken {res['steps']})")
+
+
+
 def _preimport():
     """import (not run) every extractor module so that the forked baseline children do not pay for it"""
     from sharepoint2text.parsing import router
@@ -1995,6 +2333,9 @@ def corpus(ctx, wd, pdfs):
         if d["enc"] == "aesV5" and not ctx.thorough:
             continue        # AES-256 on the pure-python fallback costs ~6 s per extraction (password hash 2.B)
         docs.append(("gen/" + os.path.basename(d["path"]), d["path"]))
+    # documents nested deeper than the default recursion limit; documents that declare charset labels Python does not know
+    docs += G.deep_docs(os.path.join(wd.docs, "deep"))
+    docs += G.charset_docs(os.path.join(wd.docs, "charset"), probe_labels(ctx)[: (8 if not ctx.thorough else 40)])
     # damaged copies: truncated / bit-flipped fixtures of several formats
     picks = [d for d in docs if d[0].endswith((".pdf", ".docx", ".xlsx", ".odt", ".zip", ".7z", ".epub", ".eml", ".rtf", ".doc", ".pptx"))]
     for name, p in ctx.rng.sample(picks, min(len(picks), 10)):
@@ -2068,6 +2409,11 @@ class GlobalSnapshot:
         s["mimetypes"] = hashlib.sha1(repr(sorted(mimetypes.types_map.items())).encode()).hexdigest()[:12]
         import logging
         s["logging.disable"] = logging.root.manager.disable
+        # interpreter-wide settings with a setter, and the registries a module can extend at import time / first use
+        # (codec registry probed with non-standard labels, mimetypes maps, copyreg, atexit, email.charset, ...)
+        s.update(G.settings_snapshot())
+        s.update({"reg:" + k: (v if not isinstance(v, tuple) else hashlib.sha1(repr(v).encode()).hexdigest()[:12])
+                  for k, v in G.registries_snapshot(_snapshot_labels()).items()})
         return s
 
     @staticmethod
@@ -2076,15 +2422,19 @@ class GlobalSnapshot:
         return {k: (a[k], b[k]) for k in a if k in b and a[k] != b[k]}
 
 
-def seq_oracle(ctx, wd, docs, baseline, aes_state):
+def seq_oracle(ctx, wd, docs, baseline, aes_state, st=None):
     """random sequences (incl. failing inputs, early-closed generators) then random thread workloads"""
     violations = []
     snap = GlobalSnapshot(wd)
     by_name = dict(docs)
     names = [n for n, _ in docs]
+    guard = G.SettingsGuard()      # whatever a sequence / workload leaks is put back before the next part of the run
     # warm-up: import every extractor once so that lazily imported modules do not look like state changes
-    for n in names:
-        extract_digest(by_name[n])
+    with SetterRecorder() as rec:      # which functions of the package call a setter of an interpreter-global setting?
+        for n in names:
+            extract_digest(by_name[n])
+    if st is not None:
+        st["setter_callers"] = rec.callers
     aes_patched_before = aes_state.patched()
     s0 = snap.take()
 
@@ -2154,6 +2504,7 @@ def seq_oracle(ctx, wd, docs, baseline, aes_state):
                 break
     finally:
         sys.setswitchinterval(old)
+        guard.restore()
     return violations
 
 
@@ -2345,6 +2696,9 @@ def model_free_oracles(ctx, st):
     tempfile.tempdir = wd.tmp
     try:
         _baseline(ctx, st)
+        if "chains" not in st and not st.get("oracles_ran"):
+            orders, cdocs, labels, firsts = _chain_inputs(ctx, wd)
+            st["chains"] = (orders, G.start_import_chains(REPO, orders, cdocs, labels, firsts))
         def lines_budget():
             # quick tier: the exhaustive 'A runs i steps, B runs j steps' sweep needs ~10 s on an idle machine; it runs last
             # and gets what is left of the 60 s of the tier (at least 6 s) — on a loaded machine it stops early and says so
@@ -2354,13 +2708,17 @@ def model_free_oracles(ctx, st):
                  ("oracle:lru_cache sites", lambda: corr_lru_decorated(ctx)),
                  ("oracle:early exit", lambda: oracle_early_exit(ctx, st)),
                  ("oracle:gated documents", lambda: oracle_gated_docs(ctx, st, ctx.n(6, 60))),
-                 ("oracle:sequences and threads", lambda: seq_oracle(ctx, wd, st["docs"], st["baseline"], aes_state)),
+                 ("oracle:sequences and threads", lambda: seq_oracle(ctx, wd, st["docs"], st["baseline"], aes_state, st)),
+                 ("oracle:import histories", lambda: oracle_import_histories(ctx, st)),
+                 ("oracle:setting sections", lambda: oracle_setting_sections(ctx, st, ctx.n(25, 120))),
                  ("oracle:line-granularity sections", lambda: oracle_lines(ctx, lines_budget()))]
         for name, part in parts:
             t1 = time.time()
             v, b = guarded(name, part)
             ctx.coverage[name.split(":", 1)[1].replace(" ", "_") + "_s"] = round(time.time() - t1, 2)
             violations += v or []
+            if any(x.key.startswith(("settings.", "imports.")) for x in (v or [])):
+                st["global_violations"] = True
             if b is not None:
                 st.setdefault("oracle_broken", []).append(b)
         st["oracles_ran"] = True
@@ -2441,6 +2799,11 @@ def search(ctx, broken):
     # 0. the model-independent oracles of correspondence() if it could not run (driver not built)
     if not st.get("oracles_ran"):
         found += model_free_oracles(ctx, st)
+    # a setter of an interpreter-global setting / a registry extension appeared in the inventory and the always-on oracles of the
+    # statement already produced the concrete failing schedule / import history for it: that IS the failing input
+    if st.get("global_violations") and all(b.kind == "theorem" and "inventory_" in b.name or b.kind == "correspondence" and b.name.startswith("oracle:")
+                                           for b in broken):
+        return found
     # 0b. the round-key cache under concurrent use, model-free: every region-granularity interleaving of two threads over
     #     all kinds of key pairs, then line granularity (cheap, always)
     if not any(v.key == "cache.round-keys-depend-on-concurrent-use" for v in found):
@@ -2545,6 +2908,14 @@ def _replay(ctx, payload):
             base = {n: isolated_digest(by[n]) for n in {rp["a"], rp["b"]}}
             ok, what, hit = check_gated(by, base, tuple(rp["gate"]), rp["a"], rp["b"], rp["where"])
             return ok, what
+        finally:
+            tempfile.tempdir = old_tmp
+    if kind in ("import-history", "setting-section"):
+        wd = st["wd"]
+        old_tmp = tempfile.tempdir
+        tempfile.tempdir = wd.tmp
+        try:
+            return replay_import_history(ctx, st, rp) if kind == "import-history" else replay_setting_section(ctx, st, rp)
         finally:
             tempfile.tempdir = old_tmp
     if kind == "interleaving":
